@@ -8,6 +8,8 @@ import EupsModel.Lemmas.TableLegacyOld
 import EupsModel.Lemmas.TableArgs
 import EupsModel.Lemmas.TableWritten
 import EupsModel.Lemmas.TableDeclOpts
+import EupsModel.Lemmas.TableGrammar
+import EupsModel.Lemmas.TableLegacyDenote
 /-! C11 — table files mean what they say.  Property theorems only: the specification side is in
 `Spec/C11.lean`, the models in `Model/{Cond,CondPinned,TableParse}.lean`, the lemmas in `Lemmas/Cond*.lean`. -/
 namespace EupsModel.C11
@@ -480,6 +482,85 @@ theorem C11_args_empty_quoted_witness :
     parseArgs repaired (Str.ofString "\"\", \"a b\"") = [[], Str.ofString "a b"] := by
   decide +kernel
 
+/-! ## the headline on a stated grammar of table texts -/
+
+/-- **C11_table_text (the headline, on a stated grammar of texts, no hypothesis about the reader).**  For every table
+of the grammar of `Spec/C11Grammar.lean` — items that are command lines as written (indentation, command word in any
+letter case, blanks, a written argument list with quoted and unquoted arguments and any separators, optional `;`,
+trailing comment), blank or comment lines, and `if` / `else if` / `else` chains of any length written with any layout
+whose branches hold such lines, conditions in any written form — for every product, flavor (not one of the
+evaluator's four special tokens) and list of setup types:
+`Table(text, product).actions(flavor, types)` is exactly what the table denotes (`gDenote`): the actions of the
+commands outside chains, of each chain those of the first branch whose condition is true, else of the else branch,
+in the order written, each command with the arguments written (`WCmd.denote`).
+The well-formedness conditions are all syntactic (`GItem.ok`: blanks are blanks, words are words, no `#` or old
+variable name inside a command, the number of arguments is one the reader accepts). -/
+theorem C11_table_text (env : Env) (hfl : flavorOK env.flavor = true) (pdir : Option Str) (t : List GItem)
+    (hok : t.all (GItem.ok pdir) = true) (nl : Bool) :
+    tableActions repaired pdir env (gText t nl) = .ok (gDenote pdir env t) := by
+  rw [gText_eq pdir, C11_blocks_text env hfl pdir _ (gtable_ok hok) nl, gtable_denote env hok]
+
+def cmdSetA : WCmd :=
+  { wrap := ⟨[9], []⟩, name := Str.ofString "envSet", cmd := .envSet, gap := [],
+    args := .some [] ⟨Str.ofString "A", false⟩ [(Str.ofString ", ", ⟨Str.ofString "1", false⟩)] [], tl := [] }
+def cmdSetB : WCmd :=
+  { wrap := ⟨Str.ofString "      ", Str.ofString "# comment"⟩, name := Str.ofString "SETENV", cmd := .envSet, gap := [32],
+    args := .some [] ⟨Str.ofString "B", false⟩ [(Str.ofString ", ", ⟨Str.ofString "x y", true⟩)] [], tl := Str.ofString ";  " }
+def cmdUnset : WCmd :=
+  { wrap := ⟨[], []⟩, name := Str.ofString "pathRemove", cmd := .envUnset, gap := [],
+    args := .some [] ⟨Str.ofString "PATH", false⟩ [] [], tl := [] }
+
+def sampleGTable : List GItem :=
+  [ .line (.note (Str.ofString "# a table")),
+    .line (.cmd sampleCmd),
+    .chain
+      ⟨⟨Str.ofString "  ", Str.ofString "# only there"⟩, ⟨Str.ofString "IF", [32], [32], [32, 32, 32]⟩,
+        .atom ⟨Str.ofString "FLAVOR", .flavor, false, Str.ofString "Linux", none, [32], [32], [32]⟩, [32],
+        [.cmd cmdSetA, .note []]⟩
+      [(⟨[32], Str.ofString "Else", [32]⟩, ⟨⟨Str.ofString "  ", []⟩, ⟨Str.ofString "if", [32], [], []⟩, condBuild, [], []⟩)]
+      (some ⟨⟨Str.ofString "  ", Str.ofString "# otherwise"⟩, ⟨[], Str.ofString "else", []⟩, [32],
+        [.cmd cmdUnset, .cmd cmdSetB]⟩)
+      ⟨Str.ofString "  ", []⟩ [] ]
+
+example : gText sampleGTable true = Str.ofString
+    "# a table\n\tENVAPPEND (PATH, \"${PRODUCT_DIR}/my bin\", ;) ;  # c\n  IF ( FLAVOR == Linux ) {   # only there\n\tenvSet(A, 1)\n\n  } Else if (TYPE == build){\n  }else{ # otherwise\npathRemove(PATH)\n      SETENV (B, \"x y\");  # comment\n  }\n" := by
+  decide +kernel
+example : sampleGTable.all (GItem.ok none) = true := by decide +kernel
+example : gDenote none envLinux sampleGTable = [⟨Str.ofString "envPrepend",
+    [Str.ofString "PATH", Str.ofString "${PRODUCT_DIR}/my bin", [59]], .append true⟩, actA] ∧
+    gDenote none ⟨Str.ofString "Darwin", []⟩ sampleGTable = [⟨Str.ofString "envPrepend",
+    [Str.ofString "PATH", Str.ofString "${PRODUCT_DIR}/my bin", [59]], .append true⟩, actB] := by decide +kernel
+
+/-- **C11_legacy_denotes (legacy `Flavor=` groups mean what the corresponding `if` blocks mean).**  For every legacy
+table of the grammar — command / blank / comment lines, then groups, each one or more `Flavor = f` lines (keyword in
+any letter case, blanks, indentation, comments; `f` a plain word) followed by a command line and further command /
+blank / comment lines up to the next group — for every product, flavor and list of setup types:
+`Table(text, product).actions(flavor, types)` is the actions of the lines before the first group followed, for each
+group in order, by the actions of its lines when the flavor is one of the group's flavors (and nothing otherwise).
+Composition of `_rewrite` (`C11_legacy_groups`), the two patterns of `_read`, the block state machine,
+`Table.actions` and the condition evaluator on `FLAVOR == f1 || FLAVOR == f2 …`. -/
+theorem C11_legacy_denotes (env : Env) (hfl : flavorOK env.flavor = true) (pdir : Option Str) (pre : List GLine)
+    (gs : List LGroup) (hpre : pre.all (GLine.ok pdir) = true) (hgs : gs.all (LGroup.ok pdir) = true) (nl : Bool) :
+    tableActions repaired pdir env (lText pre gs nl) = .ok (lDenote pdir env pre gs) :=
+  legacy_denotes env hfl pdir pre gs hpre hgs nl
+
+/-! ### non-vacuity -/
+
+def sampleLGroups : List LGroup :=
+  [ ⟨⟨⟨[], []⟩, Str.ofString "Flavor", [32], [32], Str.ofString "Linux", []⟩,
+     [⟨⟨[32], Str.ofString "# too"⟩, Str.ofString "FLAVOR", [], [], Str.ofString "Linux64", [32]⟩],
+     cmdSetA, [.note (Str.ofString "# c"), .cmd cmdSetB]⟩,
+    ⟨⟨⟨[], []⟩, Str.ofString "flavor", [32], [], Str.ofString "Darwin", []⟩, [], cmdUnset, []⟩ ]
+
+example : lText [.cmd sampleCmd] sampleLGroups true = Str.ofString
+    "\tENVAPPEND (PATH, \"${PRODUCT_DIR}/my bin\", ;) ;  # c\nFlavor = Linux\n FLAVOR=Linux64 # too\n\tenvSet(A, 1)\n# c\n      SETENV (B, \"x y\");  # comment\nflavor =Darwin\npathRemove(PATH)\n" := by
+  decide +kernel
+example : [GLine.cmd sampleCmd].all (GLine.ok none) = true ∧ sampleLGroups.all (LGroup.ok none) = true := by decide +kernel
+example : lDenote none ⟨Str.ofString "Linux64", []⟩ [.cmd sampleCmd] sampleLGroups = [⟨Str.ofString "envPrepend",
+      [Str.ofString "PATH", Str.ofString "${PRODUCT_DIR}/my bin", [59]], .append true⟩, actA, actB] ∧
+    lDenote none ⟨Str.ofString "SunOS", []⟩ [.cmd sampleCmd] sampleLGroups = [⟨Str.ofString "envPrepend",
+      [Str.ofString "PATH", Str.ofString "${PRODUCT_DIR}/my bin", [59]], .append true⟩] := by decide +kernel
+
 /-! ## `declareOptions` (what `eups declare` reads from the table) -/
 
 /-- **C11_declare_options_selection.**  `Table.getDeclareOptions(flavor, types)` — a second copy of the branch
@@ -496,6 +577,13 @@ theorem C11_declare_options_text (env : Env) (hfl : flavorOK env.flavor = true) 
     (hok : t.all (TItemT.ok pdir) = true) (nl : Bool) :
     tableDeclOpts repaired pdir env (tableText t nl) = .ok (blockOpts [] (denoteTable env (tableAbs t))) := by
   rw [tableDeclOpts_actions, C11_blocks_text env hfl pdir t hok nl]; rfl
+
+/-- the same on the grammar of `C11_table_text`: the options `eups declare` sees are those of the `declareOptions`
+commands among the actions the table denotes -/
+theorem C11_table_declare_options (env : Env) (hfl : flavorOK env.flavor = true) (pdir : Option Str) (t : List GItem)
+    (hok : t.all (GItem.ok pdir) = true) (nl : Bool) :
+    tableDeclOpts repaired pdir env (gText t nl) = .ok (blockOpts [] (gDenote pdir env t)) := by
+  rw [tableDeclOpts_actions, C11_table_text env hfl pdir t hok nl]; rfl
 
 /-- **C11_declare_option_words.**  `=` separates the words of `declareOptions` like blanks and commas do: for
 arguments without white space inside (every unquoted argument) the words are the non-empty pieces between `=`
